@@ -220,7 +220,8 @@ fn classify(script: &[Ans], ops: &[Op]) -> &'static str {
 fn subjects(tier: Tier, seed: u64) -> Vec<(String, Vec<u8>)> {
     let mut by_sig: BTreeMap<String, (String, Vec<u8>)> = BTreeMap::new();
     for l in all_leaves() {
-        for (cname, c) in contexts(l.nbits / 8, tier, seed).into_iter().take(3) {
+        // every context: header values such as a reserved CA (0xaa.. gives CA = 2) have their own seek pattern
+        for (cname, c) in contexts(l.nbits / 8, tier, seed).into_iter() {
             let mut b = c.clone();
             for (f, w, v) in &l.fixed {
                 set_bits(&mut b, *f as usize, *w as usize, *v);
@@ -229,6 +230,28 @@ fn subjects(tier: Tier, seed: u64) -> Vec<(String, Vec<u8>)> {
                 let sig = format!("{ops:?}");
                 by_sig.entry(sig).or_insert((format!("{}/{cname}", l.name), b));
             }
+        }
+    }
+    let mut extra: Vec<(String, Vec<u8>)> = vec![];
+    for (df, n) in [(11u64, 7usize), (17, 14), (24, 14), (31, 14)] {
+        for ca in 1u64..4 {
+            let mut b = vec![0x5au8; n];
+            set_bits(&mut b, 1, 5, df);
+            set_bits(&mut b, 6, 3, ca);
+            extra.push((format!("DF{df}/CA{ca}"), b));
+        }
+    }
+    for (df, n) in [(4u64, 7usize), (5, 7), (20, 14), (21, 14)] {
+        for dr in [2u64, 31] {
+            let mut b = vec![0x5au8; n];
+            set_bits(&mut b, 1, 5, df);
+            set_bits(&mut b, 9, 5, dr);
+            extra.push((format!("DF{df}/DR{dr}"), b));
+        }
+    }
+    for (name, b) in extra {
+        if let Ok((_, _, ops)) = run_script(&b, &[]) {
+            by_sig.entry(format!("{name}{ops:?}")).or_insert((name, b));
         }
     }
     by_sig.into_values().collect()
